@@ -413,10 +413,63 @@ Section ReadPath.
     let st := w_st w1 in
     set_st w1 (mkStore (s_actual st) (s_filled st) (s_media st) false (s_refilling st)).
 
+  (* do_refill_range with input == nullptr (the prefetch path), store.cpp:201-302: no copy, always
+     the inline write, a failed/short media write fails the call *)
+  Definition do_refill_noinput (w : world) (roff rsize0 count asize : Z) : rres * world :=
+    let st := w_st w in
+    let rsize := if asize <? roff + rsize0 then asize - roff else rsize0 in
+    if conflict (w_held w) roff rsize then (RAgain, run_holders w)
+    else if negb (asize =? s_actual st) then (RAgain, w)
+    else
+    let '(ret0, data, w1) := src_pread w roff rsize in
+    if negb (ret0 =? rsize) then (RRet (-1), w1)
+    else
+    let (wr, w2) := do_pwritev2 w1 roff data in
+    if negb (wr =? rsize) then (RRet (-1), w2) else (RRet count, w2).
+
+  (* ICacheStore::try_refill_range, store.cpp:141-169 *)
+  Fixpoint try_refill_loop (fuel : nat) (w : world) (offset count0 : Z) : Z * world :=
+    match fuel with
+    | O => (-2, w)
+    | S f =>
+        let asize := s_actual (w_st w) in
+        if asize <=? offset then (0, w) else
+        let count := if asize <? offset + count0 then asize - offset else count0 in
+        let q := query (w_st w) offset count in
+        if fst q <? 0 then (-1, w)
+        else if snd q =? 0 then (count, w)
+        else match do_refill_noinput w (fst q) (snd q) count asize with
+             | (RRet r, w1) => (r, w1)
+             | (RAgain, w1) => try_refill_loop f w1 offset count
+             end
+    end.
+
+  Definition try_refill_range (w : world) (offset count : Z) : Z * world :=
+    let asize := s_actual (w_st w) in
+    let (r, w1) := if (asize <=? offset) || (asize <? offset + count) then tryget_size w else (0, w) in
+    if negb (r =? 0) then (-1, w1) else try_refill_loop 4 w1 offset count.
+
+  (* ICacheStore::prefetch -> do_prefetch, pool_store.h:170-173, store.cpp:433-459, for requests whose
+     page-aligned extent fits one batch (32 MiB): the loop body runs once; -3 = outside that guard *)
+  Definition PREFETCH_BATCH : Z := 33554432.
+  Definition prefetch (w : world) (offset0 count : Z) : Z * world :=
+    let offset1 := if offset0 <? 0 then 0 else offset0 in
+    let pg := c_page cfg in
+    let e0 := offset1 + count in
+    let offset := if negb (offset1 mod pg =? 0) then offset1 / pg * pg else offset1 in
+    let e := if negb (e0 mod pg =? 0) then (e0 + pg - 1) / pg * pg else e0 in
+    let remain := e - offset in
+    if remain <=? 0 then (0, w)
+    else if PREFETCH_BATCH <? remain then (-3, w)
+    else
+      let (ret, w1) := try_refill_range w offset remain in
+      if ret <? 0 then (-1, w1) else (ret, w1).
+
   Inductive op :=
   | OpRead (off : Z) (vsize : Z) (held : list (Z * Z * bool)) (co sync : bool)
   | OpEvict (off cnt : Z)
-  | OpEvictAll.
+  | OpEvictAll
+  | OpPrefetch (off cnt : Z).
 
   (* result of one op: return value (0 for evictions), the user buffer, the event log in order *)
   Definition run_op (w : world) (o : op) : (Z * list Z * list event) * world :=
@@ -431,6 +484,9 @@ Section ReadPath.
         let w1 := evict w0 off cnt in ((0, [], rev (w_log w1)), w1)
     | OpEvictAll =>
         let w1 := evict_all w0 in ((0, [], rev (w_log w1)), w1)
+    | OpPrefetch off cnt =>
+        let (r, w1) := prefetch w0 off cnt in
+        ((r, [], rev (w_log w1)), mkW (w_st w1) (w_sor w1) (w_wor w1) [] [] [] [])
     end.
 
   Fixpoint run_ops (w : world) (ops : list op) : list (Z * list Z * list event) * world :=
